@@ -236,20 +236,29 @@ def lookup(rep, c, byname):
                                 "that order (out of order at %s): those names do not resolve although they are "
                                 "advertised and accepted by the validator" % (mod, kname, bad[:8]))
         return
-    # linear scan idiom: for each table a loop whose guard compares name with key.to_uppercase()
-    loops = [x for x in walk(fn["body"]) if kind(x) == "Loop" and x.get("src") == "ForLoop"]
-    cmp_ok = 0
-    for lp in loops:
-        for x in walk(lp):
-            if kind(x) == "If":
-                cnd = peel(x["cond"])
-                t = " ".join(callee(y) or "" for y in walk(cnd) if kind(y) in ("MethodCall", "Call") and isinstance(callee(y), str))
-                if "to_uppercase" in t or "to_ascii_uppercase" in t or "eq_ignore_ascii_case" in t:
-                    cmp_ok += 1
-                    break
-    r.instance("scan", where(fn["body"]), "%d scanning loops with case-folded comparison" % cmp_ok)
-    if cmp_ok < 3:
-        r.lost("by_name lookup idiom (neither 3 linear scans with upper-cased comparison nor a binary search)")
+    # linear scan (loops, or an iterator chain with find / position / any): every comparison of the requested name with
+    # a table key folds the key's case the way the advertised names are spelled
+    comps = []
+    for b in bodies:
+        for x in walk(b["body"]):
+            is_cmp = (kind(x) == "Binary" and x["op"] == "==") or (
+                kind(x) == "MethodCall" and (x.get("path") == "core::cmp::PartialEq::eq" or x["m"] == "eq_ignore_ascii_case"))
+            if not is_cmp:
+                continue
+            tys = [y.get("ty", "") for y in walk(x) if kind(y) in ("Path", "Field", "MethodCall")]
+            if not any("str" in ty or "String" in ty for ty in tys):
+                continue
+            t2 = " ".join(str(callee(y) or "") + " " + str(y.get("m", "")) for y in walk(x) if kind(y) in ("MethodCall", "Call"))
+            folded = any(w in t2 for w in ("to_uppercase", "to_ascii_uppercase", "eq_ignore_ascii_case"))
+            comps.append((x, folded))
+    r.instance("scan", where(fn["body"]), "%d name comparisons, %d case-folded" % (len(comps), sum(1 for c2 in comps if c2[1])))
+    if not comps:
+        r.lost("by_name lookup idiom (neither a scan comparing names nor a binary search)")
+    for (x, folded) in comps:
+        if not folded:
+            r.violation("scan:unfolded", where(x), "by_name compares the requested name with a table key without folding "
+                        "the key's case: the tables spell keys in mixed case, the advertised names are upper case, so "
+                        "those names do not resolve")
 
 
 def access(rep, f, c, names):
